@@ -433,6 +433,8 @@ class DataFrame:
     def __hash__(self):
         from xxhash import xxh64
 
+        # hashing must not consume the rows of a lazily backed DataFrame
+        self.materialize()
         _hash = 0
         for i, row in enumerate(self._rows):
             row_hash = xxh64(str(row).encode()).intdigest()
